@@ -211,6 +211,7 @@ pub fn gen_case(env: &Env, src: &mut Src<'_>) -> GenCase {
         assign,
         timeout: Duration::from_secs(if empty_shard { 4 } else { 120 }),
         tamper: None,
+        more_tampers: vec![],
         stop_on_error_of: 0b111,
     };
     GenCase { rows, cfg, labels }
